@@ -106,6 +106,19 @@ def confirm_lex_failure(P, name, d, f, r):
     cfg, profile = r['cfg'], r['profile']
     info = {'def': d.id, 'cfg': cfg, 'profile': profile, 'start': r['start'], 'input_hex': data.hex(),
             'input': data.decode('utf8', 'replace'), 'what': f['what'], 'partial': r.get('partial', False)}
+    if 'does not return within its step budget' in f['what']:
+        # a spinning next(): the plain build (no read trace: the log would grow without bound) under a short timeout
+        binary = native_binary(P, name, cfg, profile)
+        items, panicked, raw = pipeline.native_run(binary, d.id, data, partial=r.get('partial', False), start=r['start'], timeout=8)
+        info['native'] = items
+        info['native_panic'] = panicked
+        info['mismatch'] = 'native lexer did not finish within 8 s' if panicked == 'timeout' else (
+            f'native lexer stopped: {panicked}' if panicked else None)
+        if items is not None and any(x[0] != 'none' and x[1] == x[2] for x in items):
+            info['mismatch'] = 'native lexer yields empty-span items'
+        if raw and 'TOOMANY' in raw:
+            info['mismatch'] = 'native lexer yields items without end'
+        return (info['mismatch'] is not None), info
     if f.get('prop') == 'C20' or 'C20' in (f.get('props') or ()):
         # read-order failures are only observable with the guarded read-trace hook (--cfg logos_verif)
         key = (name, cfg, profile, 'trace')
@@ -265,6 +278,10 @@ def lex_family(prop, tier, seed, *, relevant, select, name, cfgs, N, starts, bud
         tot['leaves'] += r['leaves']
         for k in ('queries', 'cached', 'solver_s', 'paths', 'steps'):
             tot[k] += r['stats'][k]
+        # largest number of MIR blocks one next() call executed, relative to its budget (4000 + 1500 * N)
+        mcs = r['stats'].get('max_call_steps', 0)
+        tot['max_call_steps'] = max(tot.get('max_call_steps', 0), mcs)
+        tot['max_call_fraction'] = max(tot.get('max_call_fraction', 0.0), round(mcs / (4000 + 1500 * r['N']), 3))
         pd = per_def.setdefault(r['id'], dict(leaves=0, N=[], cfgs=set(), starts=set(), wall=0.0))
         pd['leaves'] += r['leaves']
         pd['N'].append(r['N'])
@@ -336,7 +353,8 @@ def lex_family(prop, tier, seed, *, relevant, select, name, cfgs, N, starts, bud
                    'long_runs': [list(x) for x in long_runs], 'whole_stream_runs': {'definitions': sorted(set(stream_defs) & set(per_def)), 'N': stream_N} if stream_defs else None,
                    'outside': 'inputs longer than N bytes; definitions outside the corpus; rustc/LLVM lowering after MIR'},
         'queries_discharged': tot['queries'], 'queries_reused_on_replay': tot['cached'], 'solver_s': round(tot['solver_s'], 1),
-        'paths': tot['paths'], 'mir_blocks_executed': tot['steps'],
+        'paths': tot['paths'], 'mir_blocks_executed': tot['steps'], 'max_blocks_in_one_next': tot.get('max_call_steps', 0),
+        'max_fraction_of_call_step_budget': tot.get('max_call_fraction', 0.0),
         'functions_encoded': sorted(fns)[:400], 'functions_encoded_count': len(fns), 'stubs': sorted(builtins),
         'failures_confirmed_natively': confirmed, 'models_not_reproduced': unconfirmed,
         'unexpected_verdicts': [d.id for d in P.unexpected],
@@ -363,7 +381,8 @@ def lex_family(prop, tier, seed, *, relevant, select, name, cfgs, N, starts, bud
     else:
         ev.write()
     log(f'{prop} {tier}: {len(P.usable)} definitions x {len(P.progs)} configurations, {tot["leaves"]} leaves, '
-        f'{tot["queries"]} queries, solver {tot["solver_s"]:.1f}s, explore {explore_s}s, rc={rc}')
+        f'{tot["queries"]} queries, solver {tot["solver_s"]:.1f}s, explore {explore_s}s, '
+        f'max {tot.get("max_call_steps", 0)} blocks in one next() ({tot.get("max_call_fraction", 0.0)} of its budget), rc={rc}')
     return rc
 
 
@@ -394,9 +413,9 @@ def sel_for(tier, *tags):
     return sel_tags()
 
 
-LONG_QUICK = (('kw_ident', 17), ('long_loop', 72), ('neg_loop_bytes', 20))
+LONG_QUICK = (('kw_ident', 17), ('long_loop', 72), ('neg_loop_bytes', 20), ('long_ident', 20), ('long_float', 20), ('long_skip', 20))
 LONG_THOROUGH = (('kw_ident', 17), ('holes', 17), ('strings', 17), ('numbers', 17), ('skips', 17), ('nested_rep1', 17),
-                 ('long_loop', 72), ('long_loop', 136), ('neg_loop_bytes', 28), ('strings', 20))
+                 ('long_loop', 72), ('long_loop', 136), ('neg_loop_bytes', 28), ('strings', 20), ('long_ident', 28), ('long_float', 20), ('long_skip', 28))
 
 
 def c01(tier, seed):
@@ -409,7 +428,7 @@ def c01(tier, seed):
         os.environ['VERIF_EXPORT_SMT'] = d
     hook = {}
     rc = lex_family('C01', tier, seed, relevant={'C01'}, select=sel_for(tier), name='lex',
-                    long_defs=(('long_loop', 40),) if tier == 'quick' else LONG_THOROUGH, evidence_hook=hook, **tp)
+                    long_defs=(('long_loop', 40), ('long_ident', 20), ('long_float', 20), ('long_skip', 20)) if tier == 'quick' else LONG_THOROUGH, evidence_hook=hook, **tp)
     ev = hook['ev']
     if tier != 'quick':
         from . import crosscheck
@@ -429,7 +448,7 @@ def c02(tier, seed):
     tp = tier_params(tier)
     # long runs: consumption and error-span obligations where block-wise loops (8/16-byte chunks) come into play
     return lex_family('C02', tier, seed, relevant={'C02'}, select=sel_for(tier, 'unicode'), name='lex',
-                      long_defs=(('long_loop', 24), ('neg_loop_bytes', 20)) if tier == 'quick' else LONG_THOROUGH, **tp)
+                      long_defs=(('long_loop', 24), ('neg_loop_bytes', 20), ('long_ident', 20), ('long_float', 20), ('long_skip', 20)) if tier == 'quick' else LONG_THOROUGH, **tp)
 
 
 def with_rejects(sel, *tags):
@@ -447,7 +466,8 @@ def c03(tier, seed):
     tp = tier_params(tier)
     return lex_family('C03', tier, seed, relevant={'C03'}, select=with_rejects(sel_for(tier), 'empty'), name='lex',
                       acceptance=acceptance_empty, stream_defs=STREAM_QUICK if tier == 'quick' else STREAM_THOROUGH,
-                      stream_N=4 if tier == 'quick' else 5, **tp)
+                      stream_N=4 if tier == 'quick' else 5,
+                      long_defs=(('long_loop', 24), ('long_ident', 20), ('long_float', 20), ('long_skip', 20)) if tier == 'quick' else LONG_THOROUGH, **tp)
 
 
 def c04(tier, seed):
@@ -455,7 +475,8 @@ def c04(tier, seed):
     from .accept_checks import acceptance_utf8
     return lex_family('C04', tier, seed, relevant={'C04'},
                       select=with_rejects(lambda ds: [d for d in sel_for(tier, 'unicode')(ds) if d.utf8], 'nonutf8'), name='lex',
-                      acceptance=acceptance_utf8, **tp)
+                      acceptance=acceptance_utf8, long_defs=(('long_ident', 20), ('long_float', 20), ('long_skip', 20),) if tier == 'quick' else (('long_ident', 28), ('long_float', 20), ('long_skip', 28), ('strings', 20)),
+                      **tp)
 
 
 def c05(tier, seed):
@@ -537,8 +558,8 @@ def kani_cross_check(prop, ev, harnesses):
 def c20(tier, seed):
     tp = tier_params(tier)
     return lex_family('C20', tier, seed, relevant={'C20'}, select=sel_for(tier, 'backtrack'), name='lex',
-                      long_defs=(('long_loop', 72), ('neg_loop_bytes', 20)) if tier == 'quick' else
-                      (('long_loop', 72), ('long_loop', 136), ('kw_ident', 17), ('neg_loop_bytes', 28), ('strings', 20)),
+                      long_defs=(('long_loop', 72), ('neg_loop_bytes', 20), ('long_ident', 24), ('long_float', 20), ('long_skip', 24)) if tier == 'quick' else
+                      (('long_loop', 72), ('long_loop', 136), ('kw_ident', 17), ('neg_loop_bytes', 28), ('strings', 20), ('long_ident', 28), ('long_float', 20), ('long_skip', 28)),
                       **tp)
 
 
@@ -565,8 +586,8 @@ def task_pair(pl):
             r = joint.explore_pair(progA, progB, pl['d'], N, pl['start'], budget=pl.get('budget'), release=pl.get('release', False))
             break
         except EngineError as e:
-            if 'time budget' in str(e) and N > 3:
-                N -= 1
+            if 'time budget' in str(e) and N > pl.get('Nmin', 3):
+                N -= 1 if N <= 6 else 2
                 continue
             raise
     r.update(id=pl['d'].id, pair=pl['pair'], start=pl['start'], N=N)
@@ -668,7 +689,8 @@ def c06(tier, seed):
     ev = report.Evidence('C06', tier, seed, 'translation_validation')
     tp = tier_params(tier)
     pairs = [('tc-unsafe', 'sm-unsafe')] if tier == 'quick' else [('tc-unsafe', 'sm-unsafe'), ('tc-safe', 'sm-safe')]
-    defs = [d for d in corpus_defs.all_defs() if d.expect == 'accept' and ('quick' in d.tags or tier != 'quick')]
+    defs = [d for d in corpus_defs.all_defs() if d.expect == 'accept' and ('quick' in d.tags or tier != 'quick' or
+                                                                       d.id in ('long_loop', 'long_ident', 'long_float', 'long_skip', 'neg_loop_bytes'))]
     cfgs = sorted({c for p in pairs for c in p})
     P = prepare(defs, cfgs, 'lex-C06')
     payloads = []
@@ -677,6 +699,15 @@ def c06(tier, seed):
             for s in tp['starts']:
                 payloads.append(dict(key=f'{d.id}/{a}~{b}/{s}', d=d, mirA=P.progs[(a, 'dev')], mirB=P.progs[(b, 'dev')],
                                      pair=(a, b), N=tp['N'], start=s, budget=tp['budget']))
+    # long runs (one next() from 0 over 20-24 symbolic bytes): the 8/16-byte blocks of the fast loops in both generators
+    long_pairs = (('long_loop', 24), ('long_ident', 20), ('long_float', 20), ('long_skip', 20), ('neg_loop_bytes', 20)) if tier == 'quick' else \
+        (('long_loop', 40), ('long_ident', 28), ('long_float', 20), ('long_skip', 28), ('neg_loop_bytes', 28), ('strings', 20), ('kw_ident', 17))
+    for lid, ln in long_pairs:
+        for d in P.usable:
+            if d.id == lid:
+                a, b = pairs[0]
+                payloads.append(dict(key=f'{d.id}/{a}~{b}/long{ln}', d=d, mirA=P.progs[(a, 'dev')], mirB=P.progs[(b, 'dev')],
+                                     pair=(a, b), N=ln, Nmin=max(9, ln - 8), start=0, budget=tp['budget'] * 3))
     # stack depth probes: the same definitions at a smaller and a larger bound
     depth_defs = [d for d in P.usable if d.id in ('kw_ident', 'skips', 'cb_unit')]
     for d in depth_defs:
@@ -887,6 +918,7 @@ def c07(tier, seed):
     sel = sel_for(tier, 'look')
     return lex_family('C07', tier, seed, relevant={'C07', 'C01', 'C02', 'C03'}, select=lambda ds: [d for d in sel(ds)], name='lex',
                       partial=True, post=partial_post,
+                      long_defs=(('long_ident', 20), ('long_float', 20), ('long_skip', 20), ('long_loop', 24)) if tier == 'quick' else (('long_ident', 28), ('long_float', 20), ('long_skip', 28), ('long_loop', 40), ('strings', 20)),
                       rule='one case = one leaf of next() on a partial lexer over a symbolic prefix (bytes and length symbolic); '
                            'non-trivial = anything but the immediate None on empty input', **tp)
 
